@@ -43,7 +43,7 @@ def in_domain_ops(r, n):
             a = r.choice([0, 1, 5, 77])
             ops += ["push:%d" % gen_exec.val(r) for _ in range(4)] + ["push:%d" % a, "mstorew", "push:%d" % a, "mloadw"]
         elif k == 16:
-            ops += ["push:%d" % r.choice([0, 4, 77]), "movdn8", "movdn5", "mstream"]
+            ops += ["push:%d" % r.choice([0, 4, 77]), "movdn8", "pad", "pad", "pad", "pad", "mstream"] + ["drop"] * 5
         elif k == 17:
             ops += ["hperm"]
         elif k == 18:
@@ -54,9 +54,36 @@ def in_domain_ops(r, n):
         elif k == 20:
             ops += [r.choice(["advpop", "advpopw"])]
         elif k == 21:
-            ops += ["push:%d" % r.choice([0, 4, 77]), "movdn8", "movdn5", "pipe"]
+            ops += ["push:%d" % r.choice([0, 4, 77]), "movdn8", "pad", "pad", "pad", "pad", "pipe"] + ["drop"] * 5
         else:
             ops += ["push:%d" % v, "u32split", "push:%d" % v, "eqz"]
+    return ops
+
+
+def ctx_mem_ops(r, n):
+    """memory traffic that always succeeds, over addresses that differ between contexts"""
+    ops = []
+    addrs = [0, 1, 2, 5, 77, 1000, 2**16, 2**30, 2**31 + 1, U32 - 3]
+    for _ in range(n):
+        a = r.choice(addrs)
+        k = r.below(8)
+        if k == 0:
+            ops += ["push:%d" % gen_exec.val(r), "push:%d" % a, "mstore", "drop"]
+        elif k == 1:
+            ops += ["push:%d" % a, "mload", "drop"]
+        elif k == 2:
+            ops += ["push:%d" % gen_exec.val(r) for _ in range(4)] + ["push:%d" % a, "mstorew", "drop", "drop", "drop", "drop"]
+        elif k == 3:
+            ops += ["pad", "pad", "pad", "pad", "push:%d" % a, "mloadw", "drop", "drop", "drop", "drop"]
+        elif k == 4:
+            # the address has to sit at position 12
+            ops += ["push:%d" % a, "movdn8", "pad", "pad", "pad", "pad", "mstream", "drop", "drop", "drop", "drop", "drop"]
+        elif k == 5:
+            d = r.choice([1, 2, 3])
+            ops += ["push:%d" % d, "fmpupdate", "push:%d" % gen_exec.val(r), "pad", "fmpadd", "mstore", "drop",
+                    "push:%d" % (P - d), "fmpupdate"]
+        else:
+            ops += [r.choice(["pad", "dup3", "swap", "add", "clk", "sdepth"])]
     return ops
 
 
@@ -81,6 +108,13 @@ def run(rep, tier, rng):
     for i in range(n // 2):
         rr = r.fork("p%d" % i)
         g = DomainProg(rr, allow_fail=False)
+        adv = [gen_exec.val(rr) for _ in range(64)]
+        cases.append(gen_exec.case_line(2**32 - 1, gen_exec.gen_stack(rr), adv, g.program()))
+    # memory traffic in several execution contexts (call, syscall, dyncall) over differing addresses
+    from props import c07
+    for i in range(n // 2):
+        rr = r.fork("m%d" % i)
+        g = c07.CtxGen(rr, ops=ctx_mem_ops, always_return_clean=True)
         adv = [gen_exec.val(rr) for _ in range(64)]
         cases.append(gen_exec.case_line(2**32 - 1, gen_exec.gen_stack(rr), adv, g.program()))
     # expected-cycles hints and challenge seeds
